@@ -883,7 +883,7 @@ func runC20(r *Run, rng *Rng, replay string) {
 		c20RunCase(r, w.g, w.s, w.c, w.t)
 	}
 	for i := 0; i < nRun; i++ {
-		G, S, C := rng.Range(1, 3), rng.Range(1, 4), rng.Range(1, 4)
+		G, S, C := rng.Range(1, 3), rng.Range(1, 4), rng.Pick(1, 2, 3, 4, 4, 5, 6, 8)
 		c20RunCase(r, G, S, C, c20GenTrace(rng, rng.Chance(45)))
 	}
 	for i := 0; i < nParse; i++ {
